@@ -109,7 +109,11 @@ CHECKS = [
              'having done only a prefix of the untampered effect log, or '
              'proceeds with an identical effect log and peer-visible '
              'dialogue; strict KEX makes every pre-NEWKEYS injection fatal; '
-             'UNIMPLEMENTED must name the injected sequence number.',
+             'UNIMPLEMENTED must name the injected sequence number. Family '
+             'guess: the peer announces first_kex_packet_follows with a '
+             'wrong guess and sends every message type in the place of the '
+             'guessed packet (key exchange types are ignored, everything '
+             'else stays out of phase).',
      'note': 'refpeer trusted as in C02; messages the dialogue calls for from '
              'that role and phase are excluded by a table and counted; '
              'effect log = security-relevant callbacks only.',
